@@ -378,33 +378,47 @@ def toyEnv : Env Bytes where
 
 /-! ## open file objects with the cursor past 0 (header + dump, dumps back to back) -/
 
-/-- **Sniffing a buffered file does not move the cursor** and detects what is AT the cursor (`_partial`, F43:
-provided `peek` returned at least `max_prefix_len` bytes). -/
-theorem sniff_keeps_cursor_partial (file : Bytes) (pos peeked : Nat) (hp : maxPrefixLen ≤ peeked) :
+/-- **Sniffing a buffered, seekable file does not move the cursor** and detects what is AT the cursor, whatever the
+state of its read buffer (`peeked` = the number of bytes `peek` happens to return): since the F43 repair a short
+`peek` is completed by `read(max_prefix_len)` + `seek(position)`. -/
+theorem sniff_keeps_cursor (file : Bytes) (pos peeked : Nat) :
     sniff true peeked file pos = (detect (file.drop pos), pos) := by
   unfold sniff detect
-  simp only [if_true, List.take_take, Nat.min_eq_left hp]
+  by_cases hp : peeked < maxPrefixLen
+  · simp [hp, List.take_take]
+  · have hle : maxPrefixLen ≤ peeked := Nat.le_of_not_lt hp
+    simp [hp, List.take_take, Nat.min_eq_left hle]
 
-/-- F43 witness (known finding): a buffered file whose read buffer holds ONE more byte when the gzip dump starts
-(an 8191-byte header under an 8192-byte buffer): `peek` returns `\x1f` only, the two-byte gzip magic is not
-recognised and the compressed stream is handed to the unpickler as if it were a pickle. -/
+/-- A peekable object that is NOT seekable (a buffered reader over a pipe) cannot be read-and-rewound: there the
+detection still relies on what `peek` returned (`_partial`: at least `max_prefix_len` bytes). -/
+theorem sniff_nonseekable_partial (file : Bytes) (pos peeked : Nat) (hp : maxPrefixLen ≤ peeked) :
+    sniff true peeked file pos false = (detect (file.drop pos), pos) := by
+  unfold sniff detect
+  simp [List.take_take, Nat.min_eq_left hp]
+
+/-- F43 witness, as repaired: a buffered file whose read buffer holds ONE more byte when the gzip dump starts (an
+8191-byte header under an 8192-byte buffer). Seekable: recognised (before the repair `peek` returned `\x1f` only, the
+two-byte gzip magic was not recognised and the compressed stream was handed to the unpickler). Not seekable: the
+short peek is all there is, and the stream is still misread — outside what `load` supports for compressed data
+(the decompressor file objects need `seek`/`tell`). -/
 theorem sniff_short_peek_counterexample :
-    sniff true 1 ([9, 9, 9] ++ [31, 139, 8, 0]) 3 = (.notCompressed, 3)
-    ∧ sniff true 2 ([9, 9, 9] ++ [31, 139, 8, 0]) 3 = (.method "gzip", 3) := by
+    sniff true 1 ([9, 9, 9] ++ [31, 139, 8, 0]) 3 = (.method "gzip", 3)
+    ∧ sniff true 1 ([9, 9, 9] ++ [31, 139, 8, 0]) 3 false = (.notCompressed, 3)
+    ∧ sniff true 2 ([9, 9, 9] ++ [31, 139, 8, 0]) 3 false = (.method "gzip", 3) := by
   decide
 
-/-- **load after dump at offset k, buffered files** (`_partial`: `peek` returned at least `max_prefix_len` bytes).
-For every header of every length `k` written before the dump, every object / compress argument / target /
-protocol that `dump` accepts: `load(f)` with the cursor at `k` returns the object. -/
-theorem load_after_dump_at_offset_partial {Obj : Type} (E : Env Obj) (L : Laws E) (x : Obj)
+/-- **load after dump at offset k, buffered files.** For every header of every length `k` written before the dump,
+every object / compress argument / target / protocol that `dump` accepts, and every state of the read buffer:
+`load(f)` with the cursor at `k` returns the object. -/
+theorem load_after_dump_at_offset {Obj : Type} (E : Env Obj) (L : Laws E) (x : Obj)
     (compress : CompressArg) (filename : Target) (protocol : Nat) (hp : protocol ≤ pickleHighestProtocol)
     (file header : Bytes) (hdump : dump E x compress filename protocol = .ok file) (nameAtLoad : String)
-    (peeked : Nat) (hpk : maxPrefixLen ≤ peeked) :
+    (peeked : Nat) :
     loadAt E true peeked nameAtLoad (header ++ file) header.length = some x := by
   have hr := roundtrip E L x compress filename protocol hp file hdump nameAtLoad
   have hd : (header ++ file).drop header.length = file := List.drop_left' rfl
   unfold loadAt
-  rw [sniff_keeps_cursor_partial _ _ _ hpk, hd]
+  rw [sniff_keeps_cursor, hd]
   unfold load at hr
   cases hdet : detect file with
   | compat => rw [hdet] at hr; simp at hr
